@@ -357,6 +357,7 @@ var specFuncs = map[string]types.Type{
 	"lsof": types.Typ[types.Int], "nlb": types.Typ[types.Int], "fmtint": types.Typ[types.String], "unfmtint": types.Typ[types.Int],
 	"skipsp": types.Typ[types.Int], "width": types.Typ[types.Int], "rune": types.Typ[types.Int], "u16w": types.Typ[types.Int],
 	"fsread":          types.Typ[types.String],
+	"splitcnt": types.Typ[types.Int], "splitoff": types.Typ[types.Int], "splitpiece": types.Typ[types.String],
 	"unicodeIsLetter": types.Typ[types.Bool], "unicodeIsDigit": types.Typ[types.Bool], "atoiok": types.Typ[types.Bool], "atoival": types.Typ[types.Int], "trimspace": types.Typ[types.String], "substr": types.Typ[types.String],
 }
 
